@@ -413,6 +413,17 @@ def run(ctx):
         for order, o, files in lst[1:]:
             perm_pairs += 1
             cur = ms_noloc(o)
+            if cur == ref and progs[pi][1] is not None and pi not in scale_split:
+                # the same multiset could still be distributed differently: compare per declaration
+                pa = per_decl(lst[0][1], progs[pi][1], progs[pi][2], lst[0][0])
+                pb = per_decl(o, progs[pi][1], progs[pi][2], order)
+                if pa != pb:
+                    viol("permutation", "permuting the declarations moves diagnostics from one declaration to another (%s, order %s)" % (progs[pi][0], order),
+                         {"files_reference": lst[0][2], "files_permuted": files,
+                          "reference": {str(k): sorted(map(list, v)) for k, v in pa.items() if pb.get(k) != v},
+                          "permuted": {str(k): sorted(map(list, v)) for k, v in pb.items() if pa.get(k) != v}},
+                         {"kind": "permutation", "dup_user_sub_differs": dup_differs(progs[pi][1])})
+                    break
             if cur != ref:
                 viol("permutation", "permuting the subroutine declarations changes the diagnostics (%s, order %s)" % (progs[pi][0], order),
                      {"files_reference": lst[0][2], "files_permuted": files,
@@ -480,6 +491,26 @@ def run(ctx):
              % (exhaustive_k, max_perm, RUNS))
 
 
+def per_decl(o, subs, others, order):
+    """diagnostics of main.vcl grouped by the declaration (index in subs) whose text contains their line"""
+    owner = {}
+    line = 1 + sum(t.count("\n") for t in others)
+    canon = {}                    # identical declarations are one owner: which copy is "the duplicate" is a location
+    ident = lambda sb: ("sub", sb.name) if sb.name else ("decl", sb.text())     # same-name subroutines are one owner too
+    for i, sb in enumerate(subs):
+        canon.setdefault(ident(sb), i)
+    for i in order:
+        n = subs[i].text().count("\n")
+        for ln in range(line, line + n):
+            owner[ln] = canon[ident(subs[i])]
+        line += n
+    out = {}
+    for d in o["diags"]:
+        key = owner.get(d[3]) if d[2] == "main.vcl" else "other-file"
+        out.setdefault(key, Counter())[(d[0], d[1], re.sub(r"/[^ ]*/cfg\d+/", "<dir>/", d[5]))] += 1
+    return out
+
+
 def dup_differs(subs):
     """two declarations of the same non-Fastly subroutine name whose return type or @scope annotation differ
     (the first declaration is the one registered, so their order is observable)"""
@@ -487,7 +518,7 @@ def dup_differs(subs):
     for s in subs or []:
         if s.name in LG.FASTLY:
             continue
-        sig = (s.rtype, LG.explicit_scope(s.name, s.annots))
+        sig = (s.rtype, getattr(s, "params", ""), LG.explicit_scope(s.name, s.annots))
         if s.name in seen and seen[s.name] != sig:
             return True
         seen.setdefault(s.name, sig)
